@@ -134,6 +134,58 @@ def bundleLine (bm : List Nat) (toks : List String) : List Nat × String :=
 def showTick (t : TickData) : String :=
   s!"{if t.initialized then 1 else 0} {t.net} {t.gross} {t.fgoA} {t.fgoB} {t.rgo.getD 0 0} {t.rgo.getD 1 0} {t.rgo.getD 2 0}"
 
+/-- `afm`: the fee-rate manager over four loop iterations (C14) -/
+def afmIter (f : FeeMgr) (items : List (Nat × Nat × Nat × Int)) (acc : String) : R (FeeMgr × String) :=
+  match items with
+  | [] => .ok (f, acc)
+  | (target, liq, after, nt) :: rest =>
+    let f1 := f.updateVolAcc
+    let rate := f1.totalFeeRate
+    let bs := f1.boundedTarget target liq
+    let va := match f1.nextInfo with | some i => i.variables.volAcc | none => 0
+    let aToB := match f1 with | .adaptive m => m.aToB | .static _ => true
+    let line := acc ++ s!" {rate}:{bs.1}:{if bs.2 then 1 else 0}:{va}"
+    if bs.2 then
+      let ended := if aToB then max after bs.1 else min after bs.1
+      match f1.advanceAfterSkip ended (sp nt) nt with
+      | .error e => .error e
+      | .ok f2 => afmIter f2 rest line
+    else afmIter f1.advance rest line
+
+def afmLine (t : List String) : Option String :=
+  if t.length ≠ 16 + 16 + 2 then none else do
+  let aToB ← b01 (t.getD 0 "")
+  let cur ← (t.getD 1 "").toInt?
+  let n ← natArgs ((t.drop 2).take 12)
+  let gr ← (t.getD 14 "").toInt?
+  let va ← (t.getD 15 "").toNat?
+  let g := fun i => n.getD i 0
+  let c : AfConstants := { filterPeriod := g 2, decayPeriod := g 3, reductionFactor := g 4, controlFactor := g 5, maxVolAcc := g 6,
+                           groupSize := g 7, majorSwapThresholdTicks := g 8 }
+  let v : AfVariables := { lastRefUpdateTs := g 9, lastMajorSwapTs := g 10, volRef := g 11, groupIndexRef := gr, volAcc := va }
+  let rest := t.drop 16
+  let item (k : Nat) : Option (Nat × Nat × Nat × Int) := do
+    let a ← (rest.getD (4 * k) "").toNat?
+    let b ← (rest.getD (4 * k + 1) "").toNat?
+    let c ← (rest.getD (4 * k + 2) "").toNat?
+    let d ← (rest.getD (4 * k + 3) "").toInt?
+    pure (a, b, c, d)
+  let items ← (List.range 4).mapM item
+  let pre ← (rest.getD 16 "").toNat?
+  let post ← (rest.getD 17 "").toNat?
+  match FeeMgr.new aToB cur (g 0) (g 1) (some { constants := c, variables := v }) with
+  | .error e => pure ("err " ++ e.name)
+  | .ok f =>
+    match afmIter f items "ok" with
+    | .error e => pure ("err " ++ e.name)
+    | .ok (f2, line) =>
+      match f2.updateMajorSwapTs (g 0) pre post with
+      | .error e => pure ("err " ++ e.name)
+      | .ok f3 =>
+        match f3.nextInfo with
+        | some i => pure (line ++ s!" | {i.variables.lastRefUpdateTs} {i.variables.lastMajorSwapTs} {i.variables.volRef} {i.variables.groupIndexRef} {i.variables.volAcc}")
+        | none => none
+
 /-- `calculate_modify_tick_array`: (size change in ticks, rent units moved position → array) -/
 def tickArrayUpdate (isVar : Bool) (posLiq updLiq : Nat) (tickInit updInit : Bool) : Int × Int :=
   if !isVar then (0, 0)
@@ -277,6 +329,9 @@ partial def loop (h : IO.FS.Stream) (out : IO.FS.Stream) (hist : Option HistStat
     | some start, some tick, some ts =>
       out.putStrLn (match pinoUsableOffset start tick ts with | some k => s!"ok {k}" | none => "ok none")
     | _, _, _ => out.putStrLn "bad-op"
+    loop h out hist bm dyn
+  | "afm" :: rest =>
+    out.putStrLn ((afmLine rest).getD "bad-op")
     loop h out hist bm dyn
   | "pmod" :: rest =>
     out.putStrLn ((pmodLine rest).getD "bad-op")
